@@ -253,6 +253,27 @@ def run(res, a):
         elif o.get("reerr") or (o.get("retype"), o.get("rebits"), o.get("re")) != (o.get("type"), o.get("bits"), o.get("bin", "")):
             viol.append(("roundtrip", "import(export(%r)) = %s/%s/%s, expected %s/%s/%s (exported text %r)" % (
                 lit, o.get("retype"), o.get("rebits"), o.get("re") or o.get("reerr"), o.get("type"), o.get("bits"), o.get("bin"), o.get("str")), lit))
+    # signed fixed point (0fxp<s.f>v): negative values at widths that fill whole bytes; the s-bit two's complement pattern of v * 2^f,
+    # a Verilog literal of exactly s digits, an n-digit binary export
+    fxn = []
+    for (sb, fb) in [(8, 4), (16, 8), (32, 16), (12, 4)]:
+        for _ in range(3 if a.tier == "quick" else 30):
+            kk = -rnd.randrange(1, 1 << (sb - 2))
+            fxn.append((sb, fb, kk, "0fxp<%d.%d>%s" % (sb, fb, repr(kk / (1 << fb)))))
+    nout = C.jsonl(C.sh([C.BMH, "c08", "-types", DYN_TYPES + ",fxps8f4,fxps32f16,fxps12f4"],
+                        input="".join(json.dumps({"op": "import", "s": t[3], "n": t[0]}) + "\n" for t in fxn), timeout=600).stdout)
+    for (sb, fb, kk, lit), o in zip(fxn, nout):
+        res.count_case({"s": lit}, nontrivial=True)
+        want = format(kk % (1 << sb), "0%db" % sb)
+        vb = re.fullmatch(r"([0-9]+)'b([01]+)", o.get("vbin", ""))
+        if o.get("err"):
+            viol.append(("fixedpoint", "signed fixed point literal %r is rejected: %s" % (lit, o["err"]), lit))
+        elif o.get("bin", "").zfill(sb) != want:
+            viol.append(("fixedpoint", "signed fixed point literal %r (= %d / 2^%d) imports as bits %s, expected %s" % (lit, kk, fb, o.get("bin"), want), lit))
+        elif not vb or int(vb.group(1)) != sb or len(vb.group(2)) != sb:
+            viol.append(("verilog", "ExportVerilogBinary of %r is %r for a %d-bit number" % (lit, o.get("vbin"), sb), lit))
+        elif o.get("nerr") or len(o.get("nbits", "")) != sb:
+            viol.append(("nbits", "ExportBinaryNBits(%d) of %r gives %r (%s)" % (sb, lit, o.get("nbits"), o.get("nerr")), lit))
     mism_num = []
     if not broken_translation:
         rows = []
